@@ -1,6 +1,7 @@
 import TongoProofs.Lemmas.TlbPrims
 import TongoProofs.Lemmas.TlbStack
 import TongoProofs.Lemmas.TlbCanon
+import TongoProofs.Lemmas.TlbChain
 import TongoGen.TlbTypes
 import TongoGen.IntTypes
 /-! # C03 — TL-B values survive encode/decode for every type the library ships
@@ -384,6 +385,45 @@ set_option maxRecDepth 100000 in
 example :
     let m (k : Nat) : Val := Val.list [Val.some (.cell (.mk 0 0 (natToBits 9 k) [])), .int (k : Int)]
     inDom (fun _ => none) 8 .highload (Val.list [m 3, m 130, m 255]) = true := by
+  decide
+
+/-- **CodecOK_w5ExtendedActions** — the third mode next to greedy / non-greedy: `wallet.W5ExtendedActions` (`chain e`)
+writes an element and, unless it was the last, one reference to the cell with the remaining elements; the decoder reads
+an element and FOLLOWS THE NEXT REFERENCE WHENEVER THERE IS ONE. For a well-formed non-greedy element type and every
+in-domain list: whatever has been written before, decoding the appended chunk returns the list and leaves exactly what
+follows — provided NO REFERENCE follows (bits may: the signature of wallet v5). -/
+theorem CodecOK_w5ExtendedActions (env : Env) (hEnv : EnvWF env) (e : Ty) (hw : wfb env e = true)
+    (hng : greedyb env greedyFuel e = false) (fuel : Nat) (v : Val) (hd : inDom env fuel (.chain e) v = true)
+    (b b' : Builder) (he : encode env fuel (.chain e) v b = .ok b') :
+    ∃ xs rs, b' = b.app xs rs ∧
+      ∀ s : Slice, s.isLibrary = false → s.refs = [] → decode env fuel (.chain e) (s.prepend xs rs) = .ok (v, s) :=
+  chain_rt hEnv e hw ⟨greedyFuel, hng⟩ fuel v b b' hd he
+
+/-- **roundtrip_wallet_MessageV5** (wallet v5r1 signed / extension bodies): the struct with the reference chain
+followed by bits-only fields (the signature), as payload of the top-level sum — `chainTopb` decides the shape on the
+REGENERATED descriptor (`wfc_wallet_MessageV5`); the theorem is `Lemmas/TlbChain.chainTop_roundtrip`. -/
+theorem roundtrip_wallet_MessageV5 (fuel : Nat) (v : Val)
+    (hd : inDom TongoGen.TlbTypes.env fuel TongoGen.TlbTypes.desc_wallet_MessageV5 v = true) (b' : Builder)
+    (he : encode TongoGen.TlbTypes.env fuel TongoGen.TlbTypes.desc_wallet_MessageV5 v Builder.empty = .ok b') :
+    ∃ rest, decode TongoGen.TlbTypes.env fuel TongoGen.TlbTypes.desc_wallet_MessageV5 (Slice.ofCell b'.toCell)
+      = .ok (v, rest) :=
+  chainTop_roundtrip generated_env_wf _ TongoGen.TlbTypes.wfc_wallet_MessageV5 fuel v hd b' he
+
+theorem roundtrip_wallet_W5ExtendedActions (fuel : Nat) (v : Val)
+    (hd : inDom TongoGen.TlbTypes.env fuel TongoGen.TlbTypes.desc_wallet_W5ExtendedActions v = true) (b' : Builder)
+    (he : encode TongoGen.TlbTypes.env fuel TongoGen.TlbTypes.desc_wallet_W5ExtendedActions v Builder.empty = .ok b') :
+    ∃ rest, decode TongoGen.TlbTypes.env fuel TongoGen.TlbTypes.desc_wallet_W5ExtendedActions
+      (Slice.ofCell b'.toCell) = .ok (v, rest) :=
+  chain_roundtrip generated_env_wf _ TongoGen.TlbTypes.wfc_wallet_W5ExtendedActions fuel v hd b' he
+
+set_option maxRecDepth 100000 in
+/-- the domain is inhabited (TEST on a literal): a signed external v5r1 body with two extended actions -/
+example :
+    let act (a : Bool) : Val := Val.ctor "SetSignatureAllowed" (Val.some (Val.list [.bool a]))
+    let v := Val.ctor "SignedExternal" (Val.some (Val.list [.int 1, .int 2, .int 3, .none,
+      Val.some (Val.list [act true, act false]), .bytes (List.replicate 64 7)]))
+    inDom TongoGen.TlbTypes.env 24 TongoGen.TlbTypes.desc_wallet_MessageV5 v = true ∧
+    (encode TongoGen.TlbTypes.env 24 TongoGen.TlbTypes.desc_wallet_MessageV5 v Builder.empty).isOk = true := by
   decide
 
 /-- the key descriptors a dictionary admits: exactly those with a fixed width -/
